@@ -3,7 +3,7 @@
   About Model/Engine.lean: `handle_network_event_connection_opened`, `create_connect`, `handle_connack`,
   `build_negotiated_settings`, the state gate of `service_queue_aux` (protocol.rs).
 -/
-import GV.Proofs.EngineBasics
+import GV.Proofs.EngineWF
 namespace GV.Props.C07
 open GV
 
@@ -103,5 +103,44 @@ theorem settings_are_connack_values (e : Engine) (c : Connack) :
     s.sessionExpiry = c.sessionExpiry.getD (e.cfg.connect.sessionExpiry.getD 0) ∧
     s.serverKeepAlive = c.serverKeepAlive.getD (e.cfg.connect.keepAlive.getD 0) ∧ s.rejoinedSession = c.sessionPresent := by
   simp [Engine.buildSettings, maxVli]
+
+end GV.Props.C07
+
+namespace GV.Props.C07
+open GV
+
+/-! ### every history -/
+
+/-- **Nothing but the CONNECT before the CONNACK.**  After any sequence of events, for any configuration: while the
+    handshake is pending, whatever is queued with high priority, being written or written-but-unflushed is the
+    CONNECT operation, no acknowledgement is awaited and no ack timeout is armed — user operations wait in the
+    user / resubmit queues, which the handshake service (`handshake_serves_only_high_priority`) never touches. -/
+theorem handshake_only_connect (cfg : Config) (evs : List Event)
+    (hs : (runEvents (Engine.new cfg) evs).1.state = .pendingConnack) :
+    (∀ id ∈ (runEvents (Engine.new cfg) evs).1.highQ ++ (runEvents (Engine.new cfg) evs).1.pendingWC,
+       ∀ o, (runEvents (Engine.new cfg) evs).1.ops.lookup id = some o → isConnectPacket o.packet = true) ∧
+    (∀ id, (runEvents (Engine.new cfg) evs).1.current = some id →
+       ∀ o, (runEvents (Engine.new cfg) evs).1.ops.lookup id = some o → isConnectPacket o.packet = true) ∧
+    (runEvents (Engine.new cfg) evs).1.pendingPub = [] ∧ (runEvents (Engine.new cfg) evs).1.pendingNonPub = [] ∧
+    (runEvents (Engine.new cfg) evs).1.timeouts = [] := by
+  obtain ⟨a, b, c, d, e⟩ := (inv_after cfg evs).2.1.h1 hs
+  exact ⟨a, b, c, d, List.isEmpty_iff.mp e⟩
+
+/-- **A closed connection leaves nothing in flight.**  After any history: while Disconnected there is no current
+    operation, nothing queued with high priority (no stale PUBREL, ack or DISCONNECT can be written on the next
+    connection before its CONNECT), no pending-ack entry, nothing unflushed and no ack timeout. -/
+theorem disconnected_is_clean (cfg : Config) (evs : List Event)
+    (hs : (runEvents (Engine.new cfg) evs).1.state = .disconnected) :
+    (runEvents (Engine.new cfg) evs).1.current = none ∧ (runEvents (Engine.new cfg) evs).1.highQ = [] ∧
+    (runEvents (Engine.new cfg) evs).1.pendingPub = [] ∧ (runEvents (Engine.new cfg) evs).1.pendingNonPub = [] ∧
+    (runEvents (Engine.new cfg) evs).1.pendingWC = [] ∧ (runEvents (Engine.new cfg) evs).1.timeouts = [] := by
+  obtain ⟨a, b, c, d, e, f⟩ := (inv_after cfg evs).2.2.1 hs
+  exact ⟨a, b, c, d, e, List.isEmpty_iff.mp f⟩
+
+/-- non-vacuity: a handshake in progress with a user operation waiting -/
+example : ((runEvents (Engine.new {}) [.user 0 (.publish { qos := 1, topic := [97] } 7 none), .opened 1 100]).1.state,
+    (runEvents (Engine.new {}) [.user 0 (.publish { qos := 1, topic := [97] } 7 none), .opened 1 100]).1.highQ,
+    (runEvents (Engine.new {}) [.user 0 (.publish { qos := 1, topic := [97] } 7 none), .opened 1 100]).1.userQ) = (.pendingConnack, [2], [1]) := by
+  decide +kernel
 
 end GV.Props.C07
